@@ -725,3 +725,85 @@ Proof.
   split; vm_compute; reflexivity.
 Qed.
 Print Assumptions C09X_nonvacuous_table.
+
+(* ---- graphs combined by BaseGraph::combine ------------------------------------------------------------------------ *)
+(* combine_graphs = concatenation of the shard graphs (node i of shard j becomes node offset_j + i).  When the k-mer
+   sets of the shard graphs are pairwise disjoint - NoDup of the (canonical) k-mers of the combined graph, which is what
+   C04's combine_spec concludes - the following is PRESERVED from [rvalid_loose] of every shard graph:
+   node well-formedness, distinct left ends, distinct right ends, [pal_ends], and the symmetry of every link between
+   two nodes of the SAME shard graph ([rvalid_loose_within]); find_link of the combined graph extends find_link of each
+   shard graph.  NOT preserved: the symmetry of links that cross from one shard graph to another - an extension that
+   was dangling in its shard may resolve to a node of another shard that records no return extension
+   (C09X_combine_counterexample: compress_graph then panics).  With cross-shard symmetry added the combined graph is
+   loosely valid and all C09X theorems apply. *)
+From DBG Require Proofs.RecompLooseCombine.
+
+Theorem C09X_combine_find_link : forall D K stranded (g1 g2 : graph D),
+  Forall (node_ok D K) g1 -> Forall (node_ok D K) g2 -> NoDup (graph_kmers D K stranded (g1 ++ g2)) ->
+  forall k d y t f,
+  (find_link D K stranded g1 k d = Some (y, t, f) -> find_link D K stranded (g1 ++ g2) k d = Some (y, t, f)) /\
+  (find_link D K stranded g2 k d = Some (y, t, f) ->
+     find_link D K stranded (g1 ++ g2) k d = Some ((length g1 + y)%nat, t, f)) /\
+  (find_link D K stranded (g1 ++ g2) k d = Some (y, t, f) ->
+     ((y < length g1)%nat /\ find_link D K stranded g1 k d = Some (y, t, f)) \/
+     ((length g1 <= y)%nat /\ find_link D K stranded g2 k d = Some ((y - length g1)%nat, t, f))).
+Proof.
+  intros D K stranded g1 g2 H1 H2 H3 k d y t f. split; [|split].
+  - exact (RecompLooseCombine.find_link_app_l D K stranded g1 g2 H1 H2 H3 k d y t f).
+  - exact (RecompLooseCombine.find_link_app_r D K stranded g1 g2 H1 H2 H3 k d y t f).
+  - exact (RecompLooseCombine.find_link_app_inv D K stranded g1 g2 H1 H2 H3 k d y t f).
+Qed.
+Print Assumptions C09X_combine_find_link.
+
+Theorem C09X_combine_within : forall D K stranded (gs : list (graph D)),
+  Forall (rvalid_loose D K stranded) gs -> NoDup (graph_kmers D K stranded (combine_graphs gs)) ->
+  rvalid_loose_within D K stranded gs (combine_graphs gs).
+Proof. exact RecompLooseCombine.combine_rvalid_loose_within. Qed.
+Print Assumptions C09X_combine_within.
+
+Theorem C09X_combine_rvalid_loose : forall D K stranded (gs : list (graph D)),
+  Forall (rvalid_loose D K stranded) gs -> NoDup (graph_kmers D K stranded (combine_graphs gs)) ->
+  links_sym_on D K stranded (fun x y => ~ same_shard D gs x y) (combine_graphs gs) ->
+  rvalid_loose D K stranded (combine_graphs gs).
+Proof. exact RecompLooseCombine.combine_rvalid_loose. Qed.
+Print Assumptions C09X_combine_rvalid_loose.
+
+(* non-vacuity: ex_loose is the combination of three loosely valid shard graphs with disjoint k-mers (its cross-shard
+   links 0 -> 1 -> 2 are symmetric) *)
+Example C09X_nonvacuous_combine :
+  let gs : list (graph rpay) :=
+    [ [ ([0;0;1;1;2], 148, (0,[0])) ]; [ ([1;1;2;3;3], 65, (0,[1])); ([3;1;0;0;1], 72, (0,[2])) ];
+      [ ([2;2;2;0;2;0], 72, (0,[3])) ] ] in
+  Forall (rvalid_loose rpay 4 false) gs /\ NoDup (graph_kmers rpay 4 false (combine_graphs gs)) /\
+  combine_graphs gs = ex_loose /\ rvalid_loose_within rpay 4 false gs (combine_graphs gs).
+Proof.
+  intro gs.
+  assert (H1 : Forall (rvalid_loose rpay 4 false) gs)
+    by (repeat (apply Forall_cons; [apply rvalid_looseb_sound; vm_compute; reflexivity|]); apply Forall_nil).
+  assert (H2 : NoDup (graph_kmers rpay 4 false (combine_graphs gs))) by (apply nodupb_sound; vm_compute; reflexivity).
+  split; [exact H1|]. split; [exact H2|]. split; [reflexivity|]. now apply C09X_combine_within.
+Qed.
+Print Assumptions C09X_nonvacuous_combine.
+
+(* counter-example for the cross-shard links: shard A = { AACCG with the right extension T } (dangling in A), shard
+   B = { CCGTT without extensions }; both are loosely valid and their k-mers are disjoint.  In the combination the
+   extension of node 0 resolves to node 1, which has no return extension: the combined graph is not loosely valid, and
+   compress_graph reaches the "unreachable" panic of try_extend_node (incoming_count = 0). *)
+Example C09X_combine_counterexample :
+  let gs : list (graph rpay) := [ [ ([0;0;1;1;2], 128, (0,[0])) ]; [ ([1;1;2;3;3], 0, (0,[1])) ] ] in
+  Forall (rvalid_loose rpay 4 false) gs /\ NoDup (graph_kmers rpay 4 false (combine_graphs gs)) /\
+  ext_link rpay 4 false (combine_graphs gs) 0 DRight 3 = Some (1%nat, DLeft, false) /\
+  ~ rvalid_loose rpay 4 false (combine_graphs gs) /\
+  compress_graph_paths rpay rpay_reduce (rpay_join 0) 4 false (combine_graphs gs) None = None.
+Proof.
+  intro gs.
+  split; [repeat (apply Forall_cons; [apply rvalid_looseb_sound; vm_compute; reflexivity|]); apply Forall_nil|].
+  split; [apply nodupb_sound; vm_compute; reflexivity|].
+  split; [vm_compute; reflexivity|].
+  split; [|vm_compute; reflexivity].
+  intros (_ & _ & _ & _ & Hsym).
+  destruct (Hsym 0%nat DRight 3 1%nat DLeft false ([0;0;1;1;2], 128, (0,[0])) ([1;1;2;3;3], 0, (0,[1])))
+    as (t' & b' & d' & f' & Hb' & He' & _); [reflexivity | reflexivity | cbn; auto | vm_compute; reflexivity|].
+  cbn in Hb'. destruct t'; destruct Hb' as [<-|[<-|[<-|[<-|[]]]]]; vm_compute in He'; discriminate.
+Qed.
+Print Assumptions C09X_combine_counterexample.
